@@ -64,6 +64,14 @@ type Agree struct {
 	Key    bool `json:"key"`
 	Policy bool `json:"policy"`
 	Expiry bool `json:"expiry"`
+	Lease  bool `json:"lease"`
+}
+
+// After is the specification's view of the sessions once a connection has used them.
+type After struct {
+	Claim     Agree `json:"claim"`
+	Ft        Agree `json:"ft"`
+	Untouched bool  `json:"untouched"`
 }
 
 type Out struct {
@@ -87,6 +95,7 @@ type Step struct {
 	Present bool     `json:"present,omitempty"`
 	Agree   *Agree   `json:"agree,omitempty"`
 	Out     *Out     `json:"out,omitempty"`
+	After   *After   `json:"after,omitempty"`
 }
 
 type Scenario struct {
@@ -481,6 +490,9 @@ func Run(sc *Scenario, v Variant, st *Stats) *Diff {
 			if eA.Expiration().Equal(eB.Expiration()) != imp.Agree.Expiry {
 				return &Diff{"Import", "expiry", fmt.Sprintf("minter %v, importer %v", eA.Expiration(), eB.Expiration())}
 			}
+			if (eA.Lease() == eB.Lease()) != imp.Agree.Lease {
+				return &Diff{"Import", "lease", fmt.Sprintf("minter's entry has lease %v, importer's %v", eA.Lease(), eB.Lease())}
+			}
 			// and both are what was asked for
 			if d := compareEntryPolicy("Import", eB.Policy(), imp.Policy, expires); d != nil {
 				return d
@@ -529,6 +541,9 @@ func Run(sc *Scenario, v Variant, st *Stats) *Diff {
 					return &Diff{"ImportFT", "policy", fmt.Sprintf("%s: %s vs %s", n, attr(fa.Policy(), n), attr(fb.Policy(), n))}
 				}
 			}
+			if fa.Expiration().Equal(fb.Expiration()) != impFT.Agree.Expiry || (fa.Lease() == fb.Lease()) != impFT.Agree.Lease {
+				return &Diff{"ImportFT", "expiry", fmt.Sprintf("file-transfer entries: expiry %v / %v, lease %v / %v", fa.Expiration(), fb.Expiration(), fa.Lease(), fb.Lease())}
+			}
 			if attr(fa.Policy(), "Encryption") != "s:YES" || attr(fa.Policy(), "Integrity") != "s:YES" {
 				return &Diff{"ImportFT", "policy", "file-transfer session must have encryption and integrity on"}
 			}
@@ -551,8 +566,51 @@ func Run(sc *Scenario, v Variant, st *Stats) *Diff {
 			cli, srv = cacheA, cacheB
 			wantUser = security.ExecuteSideMatchSessionFQU
 		}
-		o := connect(cli, srv, sid, sinful, st)
 		name := "Connect-" + exp.Which
+		ids := [4]string{wantSid, wantSid, wantFT, wantFT}
+		caches := [4]*security.SessionCache{cacheA, cacheB, cacheA, cacheB}
+		var before [4]snapshot
+		for i := range before {
+			before[i] = snap(caches[i], ids[i])
+		}
+		o := connect(cli, srv, sid, sinful, st)
+		// SameSession in every state: using the session must leave it one session
+		if aft := sc.Trace[k].After; strict && aft != nil {
+			var after [4]snapshot
+			for i := range after {
+				after[i] = snap(caches[i], ids[i])
+			}
+			who := [4]string{"minter's claim session", "importer's claim session", "minter's file-transfer session", "importer's file-transfer session"}
+			if aft.Untouched {
+				for i := range after {
+					if f, d := before[i].diff(after[i]); f != "" {
+						return &Diff{name, "after-" + f, fmt.Sprintf("the connection changed the %s: %s", who[i], d)}
+					}
+				}
+			}
+			for _, pr := range []struct {
+				a, b  int
+				agree Agree
+				what  string
+			}{{0, 1, aft.Claim, "claim"}, {2, 3, aft.Ft, "file-transfer"}} {
+				x, y := after[pr.a], after[pr.b]
+				if !x.present || !y.present {
+					continue
+				}
+				if x.exp.Equal(y.exp) != pr.agree.Expiry {
+					return &Diff{name, "after-expiry", fmt.Sprintf("after the connection the two ends' %s sessions expire at %v (minter) and %v (importer)", pr.what, x.exp, y.exp)}
+				}
+				if (x.lease == y.lease) != pr.agree.Lease {
+					return &Diff{name, "after-lease", fmt.Sprintf("after the connection the two ends' %s sessions have lease %v (minter) and %v (importer)", pr.what, x.lease, y.lease)}
+				}
+				if bytes.Equal(x.key, y.key) != pr.agree.Key || (x.id == y.id) != pr.agree.Sid {
+					return &Diff{name, "after-key", fmt.Sprintf("after the connection the two ends' %s sessions differ in id / key other than the specification says", pr.what)}
+				}
+				if pr.what == "claim" && (x.attrs == y.attrs) != pr.agree.Policy {
+					return &Diff{name, "after-policy", fmt.Sprintf("after the connection the policies are %s (minter) and %s (importer)", x.attrs, y.attrs)}
+				}
+			}
+		}
 		works := o.cliErr == nil && o.handlerRan && o.reqIntact && o.repIntact
 		if works != exp.Works {
 			return &Diff{name, "works", fmt.Sprintf("application data flowed = %v (client error %v, handler ran %v, request intact %v, reply intact %v), specification: %v",
@@ -576,6 +634,59 @@ func Run(sc *Scenario, v Variant, st *Stats) *Diff {
 		}
 	}
 	return nil
+}
+
+// snapshot of a cache entry: everything SameSession speaks about.
+type snapshot struct {
+	present bool
+	id      string
+	key     []byte
+	proto   string
+	attrs   string
+	exp     time.Time
+	lease   time.Duration
+}
+
+func snap(c *security.SessionCache, id string) snapshot {
+	e, ok := c.Lookup(id)
+	if !ok || e == nil {
+		return snapshot{}
+	}
+	s := snapshot{present: true, id: e.ID(), exp: e.Expiration(), lease: e.Lease()}
+	if k := e.KeyInfo(); k != nil {
+		s.key = append([]byte(nil), k.Data...)
+		s.proto = k.Protocol
+	}
+	var b strings.Builder
+	for _, n := range entryAttrs {
+		if n == "Sid" {
+			continue
+		}
+		fmt.Fprintf(&b, "%s=%s;", n, attr(e.Policy(), n))
+	}
+	s.attrs = b.String()
+	return s
+}
+
+// diff names the first field in which two snapshots of one entry differ.
+func (s snapshot) diff(t snapshot) (field, detail string) {
+	switch {
+	case s.present != t.present:
+		return "present", fmt.Sprintf("entry present %v -> %v", s.present, t.present)
+	case !s.present:
+		return "", ""
+	case s.id != t.id:
+		return "id", fmt.Sprintf("%q -> %q", s.id, t.id)
+	case !bytes.Equal(s.key, t.key) || s.proto != t.proto:
+		return "key", "key material changed"
+	case s.attrs != t.attrs:
+		return "policy", fmt.Sprintf("%s -> %s", s.attrs, t.attrs)
+	case !s.exp.Equal(t.exp):
+		return "expiry", fmt.Sprintf("expiry %v -> %v", s.exp, t.exp)
+	case s.lease != t.lease:
+		return "lease", fmt.Sprintf("lease %v -> %v", s.lease, t.lease)
+	}
+	return "", ""
 }
 
 func indexOf(s []string, t string) int {
@@ -649,7 +760,8 @@ func Signature(sc *Scenario, v Variant, d *Diff) map[string]string {
 	if strings.HasPrefix(d.Step, "Connect") {
 		sig["dir"] = cfg.Dir
 	}
-	if d.Step != "Mint" { // minting does not depend on what the importer holds
+	// minting, leases and what a connection does to the entries do not depend on what the importer holds
+	if d.Step != "Mint" && d.Field != "lease" && !strings.HasPrefix(d.Field, "after-") {
 		sig["secret"] = sc.Trace[0].Rel
 		if sc.Trace[0].Rel == "diff" {
 			sig["corruption"] = v.Sub
